@@ -12,7 +12,7 @@ From SJ Require Import Model.Base Model.RefTables Spec.Json Model.Tape Model.Ite
      Proofs.EscapeProofs Proofs.FloatFmtProofs Proofs.TapeSeg Tie.GoTablesTie Tie.SerializeTie.
 From SJ Require Import Model.Marshal Proofs.MarshalProofsBase Proofs.MarshalProofsRefine Proofs.MarshalProofsNum
      Proofs.MarshalProofsText Proofs.MarshalProofsTape Proofs.MarshalProofsArray Proofs.MarshalProofsSpecOk
-     Proofs.MarshalFinal.
+     Proofs.MarshalFinal Proofs.MarshalForEach.
 Open Scope N_scope.
 
 (* a printed string is a JSON string literal denoting exactly the same bytes *)
@@ -127,6 +127,18 @@ Theorem C10_value_iterator_text : forall pj strict adj pre v X d w r it,
   marshal_iter pj it = value_spec d.
 Proof. exact C10_value_iterator. Qed.
 
+(* the iterator ParsedJson.ForEach hands to its callback (its view ends with the root's
+   closing word): the text of the root's value (fix F20; an error before) *)
+Theorem C10_foreach_iterator_text : forall pj strict adj pre v n2 c X d w r it,
+  pj_tape pj = pre ++ v ++ n2 ++ c :: X ->
+  val_seg (pj_msg pj) (pj_strings pj) strict adj (nlen pre) v d -> v = w :: r ->
+  nops_seg strict n2 -> word_tag c = TagRoot ->
+  (Z.of_N (word_val c) <= Z.of_nat (length pre + length v + length n2))%Z ->
+  on_word it (length pre) w -> i_len it = Z.of_nat (length pre + length v + length n2 + 1) ->
+  (exists l, d = DArr l) \/ (exists l, d = DObj l) ->
+  marshal_iter pj it = value_spec d.
+Proof. exact marshal_foreach_root_value. Qed.
+
 Theorem C10_array_marshal_text : forall pj strict adj pre w body e X l,
   pj_tape pj = pre ++ (w :: body ++ [e]) ++ X ->
   items (pj_msg pj) (pj_strings pj) strict adj (nlen pre + 1) body l -> word_tag e = TagArrayEnd ->
@@ -135,6 +147,7 @@ Theorem C10_array_marshal_text : forall pj strict adj pre w body e X l,
     value_spec (DArr l).
 Proof. exact C10_array_marshal. Qed.
 
+Print Assumptions C10_foreach_iterator_text.
 Print Assumptions C10_marshal_refines.
 Print Assumptions C10_parse_marshal_parse_full.
 Print Assumptions C10_string_roundtrip.
